@@ -27,6 +27,7 @@ import (
 	"sync"
 	"sync/atomic"
 	"time"
+	"unicode/utf8"
 
 	mqPkts "github.com/eclipse/paho.mqtt.golang/packets"
 	"golang.org/x/sync/errgroup"
@@ -85,6 +86,31 @@ func hasWildcard(topic string) bool {
 		return true
 	}
 	return false
+}
+
+// isValidTopicName checks that the string can be used as a topic name in
+// an MQTT PUBLISH (MQTT v. 3.1.1, chapters 1.5.3 and 4.7).
+func isValidTopicName(topic string) bool {
+	return topic != "" && !hasWildcard(topic) && utf8.ValidString(topic) &&
+		!strings.ContainsRune(topic, 0)
+}
+
+// isValidTopicFilter checks that the string can be used as a topic filter in
+// an MQTT SUBSCRIBE/UNSUBSCRIBE (MQTT v. 3.1.1, chapters 1.5.3 and 4.7).
+func isValidTopicFilter(filter string) bool {
+	if filter == "" || !utf8.ValidString(filter) || strings.ContainsRune(filter, 0) {
+		return false
+	}
+	levels := strings.Split(filter, "/")
+	for i, level := range levels {
+		if strings.Contains(level, "#") && (level != "#" || i != len(levels)-1) {
+			return false
+		}
+		if strings.Contains(level, "+") && level != "+" {
+			return false
+		}
+	}
+	return true
 }
 
 type handlerConfig struct {
@@ -228,11 +254,19 @@ func (h *handler1) handleClientPublish(ctx context.Context, snPublish *snPkts1.P
 
 	mqPublish := mqPkts.NewControlPacket(mqPkts.Publish).(*mqPkts.PublishPacket)
 	mqPublish.MessageID = msgID
-	mqPublish.Dup = snPublish.DUP()
 	if snPublish.QOS == 3 {
 		mqPublish.Qos = 0
 	} else {
 		mqPublish.Qos = snPublish.QOS
+	}
+	// MQTT allows neither DUP with QoS 0 nor zero MsgID with QoS 1, 2.
+	if mqPublish.Qos == 0 {
+		mqPublish.Dup = false
+	} else {
+		mqPublish.Dup = snPublish.DUP()
+		if msgID == 0 {
+			return fmt.Errorf("zero MsgID in %v", snPublish)
+		}
 	}
 	mqPublish.Retain = snPublish.Retain
 	var topic string
@@ -620,6 +654,12 @@ func (h *handler1) handleSubscribe(ctx context.Context, snSubscribe *snPkts1.Sub
 	switch snSubscribe.TopicIDType {
 	case snPkts1.TIT_STRING:
 		topic = string(snSubscribe.TopicName)
+		// Topic filters, QoS and MsgIDs not allowed in MQTT are refused.
+		if !isValidTopicFilter(topic) || snSubscribe.QOS > 2 || snSubscribe.MessageID() == 0 {
+			snSuback := snPkts1.NewSuback(0, snPkts1.RC_NOT_SUPPORTED, 0)
+			snSuback.CopyMessageID(snSubscribe)
+			return h.snSend(snSuback)
+		}
 		if !hasWildcard(topic) {
 			var err error
 			// We must register the topic here (reusing its TopicID if it
@@ -651,13 +691,19 @@ func (h *handler1) handleSubscribe(ctx context.Context, snSubscribe *snPkts1.Sub
 		// topicID remains zero.
 	}
 
+	if snSubscribe.QOS > 2 || snSubscribe.MessageID() == 0 {
+		snSuback := snPkts1.NewSuback(0, snPkts1.RC_NOT_SUPPORTED, 0)
+		snSuback.CopyMessageID(snSubscribe)
+		return h.snSend(snSuback)
+	}
+
 	msgID := snSubscribe.MessageID()
 	transaction := newSubscribeTransaction(ctx, h, msgID, topicID)
 	h.transactions.Store(msgID, transaction)
 
 	mqSubscribe := mqPkts.NewControlPacket(mqPkts.Subscribe).(*mqPkts.SubscribePacket)
 	mqSubscribe.MessageID = snSubscribe.MessageID()
-	mqSubscribe.Dup = snSubscribe.DUP()
+	// There is no DUP flag in MQTT SUBSCRIBE.
 	mqSubscribe.Qoss = []byte{snSubscribe.QOS}
 	mqSubscribe.Topics = []string{topic}
 	return h.mqttSend(mqSubscribe)
@@ -676,6 +722,10 @@ func (h *handler1) handleUnsubscribe(snUnsubscribe *snPkts1.Unsubscribe) error {
 		}
 	case snPkts1.TIT_SHORT:
 		topic = snPkts.DecodeShortTopic(snUnsubscribe.TopicID)
+	}
+
+	if !isValidTopicFilter(topic) || snUnsubscribe.MessageID() == 0 {
+		return fmt.Errorf("invalid topic filter or MsgID in %v", snUnsubscribe)
 	}
 
 	mqUnsubscribe := mqPkts.NewControlPacket(mqPkts.Unsubscribe).(*mqPkts.UnsubscribePacket)
@@ -772,6 +822,12 @@ func (h *handler1) handleMqttSn(ctx context.Context, pkt snPkts.Packet) error {
 
 	// Client REGISTER transaction.
 	case *snPkts1.Register:
+		// A topic which cannot be used in MQTT PUBLISH cannot be registered.
+		if !isValidTopicName(snPkt.TopicName) {
+			m2 := snPkts1.NewRegack(0, snPkts1.RC_NOT_SUPPORTED)
+			m2.CopyMessageID(snPkt)
+			return h.snSend(m2)
+		}
 		returnCode := snPkts1.RC_ACCEPTED
 		topicID, err := h.registerTopic(snPkt.TopicName)
 		if err != nil {
@@ -797,6 +853,9 @@ func (h *handler1) handleMqttSn(ctx context.Context, pkt snPkts.Packet) error {
 
 	// Client PUBLISH QoS 2 transaction.
 	case *snPkts1.Pubrel:
+		if snPkt.MessageID() == 0 {
+			return fmt.Errorf("zero MsgID in %v", snPkt)
+		}
 		mqPubrel := mqPkts.NewControlPacket(mqPkts.Pubrel).(*mqPkts.PubrelPacket)
 		mqPubrel.MessageID = snPkt.MessageID()
 		return h.mqttSend(mqPubrel)
